@@ -302,11 +302,17 @@ def kinds_calls(f, script, r, vs):
     if P:
         n = min(int(model.get("len", 0)), 8)
         args = [expr("s%d" % i) for i in range(n)]
-        return ["(%s %s)" % (script, " ".join(args))]
-    args = [expr("p%s" % a[1:]) for a in params]
-    calls = ["(%s %s)" % (script, " ".join(args))]
-    if len(args) == 2:
-        calls.append("(%s %s %s)" % (script, args[1], args[0]))
+        orders = [args]
+    else:
+        args = [expr("p%s" % a[1:]) for a in params]
+        orders = [args] + ([[args[1], args[0]]] if len(args) == 2 else [])
+    calls = ["(%s %s)" % (script, " ".join(a)) for a in orders]
+    if r.get("uniqueness_tests"):
+        # the path depends on whether an argument is shared: also call with every argument held by a
+        # global variable (a second reference)
+        for a in orders:
+            defs = " ".join("(define verif-arg-%d %s)" % (i, e) for i, e in enumerate(a))
+            calls.append("%s (%s %s)" % (defs, script, " ".join("verif-arg-%d" % i for i in range(len(a)))))
     return calls
 
 
